@@ -18,9 +18,9 @@ Applicable(c, f, p) ==
   /\ (f \in {"end", "endErr"} => c >= 2) /\ (f \in {"detachS", "detachSErr"} => c >= 3) /\ (f = "detachR" => c >= 4)
   /\ (p = "send" => c >= 3) /\ (p = "recv" => c >= 4) /\ (p = "step" => c <= 5)
   /\ (p = "close" => c >= 1) /\ (p = "end" => c >= 2) /\ (p = "detach" => c >= 3)
-  \* burstK: three pre-settled sends handed over back to back, K scheduler turns, then the peer's close: frames are still
+  \* burstK: a burst of link-level frames handed over in one go, K scheduler turns, then the peer's close: frames are still
   \* queued inside the endpoint when the close is read
-  /\ (p \in Bursts => c \in {3, 4} /\ f \in {"close", "closeErr"})
+  /\ (p \in Bursts => c \in {3, 4} /\ f \in {"close", "closeErr"} /\ Side = "client")
   /\ (Only = "burst" => p \in Bursts)
 Next == z.k = "start" /\ \E c \in Cuts, f \in Faults, p \in Pends : Applicable(c, f, p) /\ z' = [k |-> "case", c |-> c, f |-> f, p |-> p]
 Spec == Init /\ [][Next]_z
@@ -32,7 +32,7 @@ Step(i) ==
   CASE i = 1 -> << <<[e |-> (IF Side = "client" THEN "AOpen" ELSE "AAccept"), cfg |-> [mfs |-> 4096]], [e |-> "PHeader", kind |-> "amqp"]>>, <<PF("open", 0, [mfs |-> 4096, chmax |-> 10])>> >>
     [] i = 2 -> IF Side = "client" THEN << <<[e |-> "ABegin", s |-> "s1", cfg |-> [noi |-> 1000, iw |-> 100, ow |-> 100]]>>, <<PF("begin", 3, [rch |-> [ref |-> "s1"], noi |-> 0, iw |-> 100, ow |-> 100])>> >>
                 ELSE << <<[e |-> "AAcceptSession", s |-> "s1", cfg |-> [noi |-> 1000, iw |-> 100, ow |-> 100]]>>, <<PF("begin", 3, [rch |-> -1, noi |-> 0, iw |-> 100, ow |-> 100])>> >>
-    [] i = 3 -> IF Side = "client" THEN << <<[e |-> "AAttachS", l |-> "L1", s |-> "s1", cfg |-> [snd |-> 2, rcv |-> 0, idc |-> 0]]>>, <<PF("attach", 3, [name |-> "L1", h |-> 5, role |-> "r", snd |-> 2, rcv |-> 0]), LinkFlow(5)>> >>
+    [] i = 3 -> IF Side = "client" THEN << <<[e |-> "AAttachS", l |-> "L1", s |-> "s1", cfg |-> [snd |-> 2, rcv |-> 0, idc |-> 0, mms |-> 200]]>>, <<PF("attach", 3, [name |-> "L1", h |-> 5, role |-> "r", snd |-> 2, rcv |-> 0]), LinkFlow(5)>> >>
                 ELSE << <<[e |-> "AAcceptLink", l |-> "L1", s |-> "s1", cfg |-> [credit |-> 5]]>>, <<PF("attach", 3, [name |-> "L1", h |-> 5, role |-> "r", snd |-> 2, rcv |-> 0]), LinkFlow(5)>> >>
     [] i = 4 -> IF Side = "client" THEN << <<[e |-> "AAttachR", l |-> "L2", s |-> "s1", cfg |-> [snd |-> 2, rcv |-> 0, credit |-> 5, auto_accept |-> FALSE]]>>, <<PF("attach", 3, [name |-> "L2", h |-> 6, role |-> "s", snd |-> 2, rcv |-> 0, idc |-> 0])>> >>
                 ELSE << <<[e |-> "AAcceptLink", l |-> "L2", s |-> "s1", cfg |-> [credit |-> 5]]>>, <<PF("attach", 3, [name |-> "L2", h |-> 6, role |-> "s", snd |-> 2, rcv |-> 0, idc |-> 0])>> >>
@@ -46,8 +46,9 @@ Pending(c, p) == CASE p = "step" -> Step(c + 1)[1]
                    [] p = "close" -> <<[e |-> "AClose", err |-> ""]>>
                    [] p = "end" -> <<[e |-> "AEnd", s |-> "s1"]>>
                    [] p = "detach" -> <<[e |-> "ADetach", l |-> "L1", closed |-> TRUE]>>
-                   [] p \in Bursts -> [i \in 1..3 |-> [e |-> "ASend", l |-> "L1", m |-> 20 + i, len |-> 20, batchable |-> TRUE, settled |-> TRUE, nosettle |-> TRUE]]
-                                      \o <<[e |-> "Yield", n |-> (CASE p = "burst1" -> 1 [] p = "burst2" -> 2 [] p = "burst3" -> 3 [] OTHER -> 5), nosettle |-> TRUE]>>
+                   \* one pre-settled message far larger than the link's max-message-size (200): some thirty link-level frames are handed over in one go
+                   [] p \in Bursts -> <<[e |-> "ASend", l |-> "L1", m |-> 21, len |-> 6000, batchable |-> TRUE, settled |-> TRUE, nosettle |-> TRUE],
+                                        [e |-> "Yield", n |-> (CASE p = "burst1" -> 1 [] p = "burst2" -> 2 [] p = "burst3" -> 3 [] OTHER -> 5), nosettle |-> TRUE]>>
                    [] OTHER -> <<>>
 Fault(f) == CASE f = "eof" -> <<[e |-> "PEof", keep_read |-> TRUE]>>
               [] f = "silentEof" -> <<[e |-> "PEof", keep_read |-> FALSE]>>
